@@ -291,6 +291,31 @@ def specRoundTrip (ops : StrOps α) (maps : List (DeclMap α)) (s : Sender α) (
       | none => false
       | some got => (demanded es l).isSublist got
 
+/-! ### decidable side conditions of the theorems (each excludes a recorded defect of the pinned code) -/
+
+/-- The map dictionary used for sending. -/
+def sendingMap (maps : List (MapDict α)) : Sender α → Option (MapDict α)
+  | .index i => maps[i]?
+  | .format nf => maps.find? (fun m => m.identifier = nf)
+
+/-- For the keys of the identity, the sending map does not declare different wire names under local
+    names that differ only in case (`C17/case-colliding-map-keys`). -/
+def sendSide (ops : StrOps α) (maps : List (MapDict α)) (s : Sender α) (ava : List (α × LVals α)) : Bool :=
+  match sendingMap maps s with
+  | none => true
+  | some m => ava.all fun e => coherentAt (sendDecl ops m) (ops.lower e.1)
+
+/-- `sendSide`, the sending map knows on receipt every wire name it sends (what `C17_bundled_wf`
+    establishes for the bundled maps), and `withEptid`: no empty-string value goes through the
+    eduPersonTargetedID special case (`C17/eptid-empty-value`). -/
+def rtSide (ops : StrOps α) (maps : List (MapDict α)) (s : Sender α) (ava : List (α × LVals α))
+    (withEptid : Bool := true) : Bool :=
+  match sendingMap maps s with
+  | none => true
+  | some m =>
+    (ava.all fun e => coherentAt (sendDecl ops m) (ops.lower e.1)) && roundTripWf ops m &&
+    (!withEptid || ava.all (eptidValuesOk ops (declMap ops m)))
+
 /-! ### diagnostics for the harness (which entry fails, and how) — not part of the specification -/
 
 def whyToWire (ops : StrOps α) (maps : List (DeclMap α)) (s : Sender α) (ava : List (α × LVals α))
